@@ -50,6 +50,7 @@ class C10(Prop):
             '(a key with >= 2 lifetimes, or an open lifetime, or a multi-chunk attachment); distinct = distinct input S-expression')
     assumptions = ['translator tie (harness/pystream.py): _update_case is symbolically executed, status/_ensure_key/stopTestRun and the StreamToDict/StreamToExtendedDecorator wrappers are matched statement by statement on every run; trusted: the translator, the record primitives set/got_timestamp/got_file/create and the reading of the recognised forms by TTV/Model/ConsumerSrc.lean; trusted normalisations before matching: early return = if/else, tests of parameters in `and` in any order, a popped / converted value bound to a local right before it is handed over, turned-around guards (`if test_id is not None: …`, `if test_status != "exists": …`), popitem() unpacked, chained to_test_case().run(...) - the order of calls (super, hook, decorated, on_test vs. pop) is asserted as written',
                    'content types are opaque tokens: parsing of mime strings (_make_content_type / email) belongs to C16',
+                   'INTERPRETATIONS modelled from the code, not repaired (audit/C10 v1, v3, v4 read the prose differently): (1) an attachment exists from its first NON-EMPTY chunk - `if file_name is not None and file_bytes:` skips empty chunks, so an attachment whose chunks are all empty (also a skip reason "") is not reported and a mime type sent only with an empty first chunk is lost; (2) StreamToExtendedDecorator drops `exists` events before its table, so inprogress + exists is flushed as a failure at stopTestRun (the extended API has no outcome for exists; its clause is about the exists-free stream); (3) events are passed by keyword - StreamToExtendedDecorator.status rejects a third positional argument (TypeError); (4) a repeated final / an event after a final opens a new lifetime that is reported again; fail lands in StreamSummary.errors; timestamps are those of the first and last event; (5) a plain unittest.TestResult / testtools.TestResult behind StreamToExtendedDecorator raises from its own addSkip for a reason attachment that is not decodable text (audit/C10 v5: ExtendedToOriginalDecorator / TestResult.addSkip, not the consumers; the driver survives it)',
 
                    'text-typed attachments may carry bytes that are invalid in their declared charset (30% of the text runs; names incl. reason and traceback); the declared charset itself is always a codec Python knows (an unknown one makes codecs.getincrementaldecoder raise LookupError in the same places: reported, not generated)',
                    'consumer faults are exceptions raised by the callback after it recorded the hand-over; the driver catches them and calls stopTestRun again until it returns normally (what the unchanged code needs in order to report the records still in its table after an exception inside the stopTestRun loop)',
